@@ -57,8 +57,9 @@ theorem f64Round0_eq (rc : UInt64) (s : L25 UInt64) :
   cases s
   simp only [f64Round0, placed, place0, place1, specRound, gRound, gIota, gChi, gRhoPi, gTheta, ops64, L25.ofFn, L25.get,
     rhoOffset, rot64, rol64, L25.mk.injEq, Nat.reduceMod, Nat.reduceDiv, Nat.reduceAdd, Nat.reduceMul, Nat.reduceSub,
-    UInt64.reduceOfNat, Nat.reduceEqDiff, OfNat.ofNat_ne_zero, reduceIte, if_false, if_true]
-  refine ⟨?_, ?_, ?_, ?_, ?_, ?_, ?_, ?_, ?_, ?_, ?_, ?_, ?_, ?_, ?_, ?_, ?_, ?_, ?_, ?_, ?_, ?_, ?_, ?_, ?_⟩ <;> bv_decide
+    UInt64.reduceOfNat, Nat.reduceEqDiff, reduceIte, if_false, if_true]
+  all_goals (repeat' apply And.intro)
+  all_goals bv_decide
 
 set_option maxRecDepth 100000 in
 set_option maxHeartbeats 4000000 in
@@ -67,8 +68,9 @@ theorem f64Round1_eq (rc : UInt64) (s : L25 UInt64) :
   cases s
   simp only [f64Round1, placed, place1, place2, specRound, gRound, gIota, gChi, gRhoPi, gTheta, ops64, L25.ofFn, L25.get,
     rhoOffset, rot64, rol64, L25.mk.injEq, Nat.reduceMod, Nat.reduceDiv, Nat.reduceAdd, Nat.reduceMul, Nat.reduceSub,
-    UInt64.reduceOfNat, Nat.reduceEqDiff, OfNat.ofNat_ne_zero, reduceIte, if_false, if_true]
-  refine ⟨?_, ?_, ?_, ?_, ?_, ?_, ?_, ?_, ?_, ?_, ?_, ?_, ?_, ?_, ?_, ?_, ?_, ?_, ?_, ?_, ?_, ?_, ?_, ?_, ?_⟩ <;> bv_decide
+    UInt64.reduceOfNat, Nat.reduceEqDiff, reduceIte, if_false, if_true]
+  all_goals (repeat' apply And.intro)
+  all_goals bv_decide
 
 set_option maxRecDepth 100000 in
 set_option maxHeartbeats 4000000 in
@@ -77,8 +79,9 @@ theorem f64Round2_eq (rc : UInt64) (s : L25 UInt64) :
   cases s
   simp only [f64Round2, placed, place2, place3, specRound, gRound, gIota, gChi, gRhoPi, gTheta, ops64, L25.ofFn, L25.get,
     rhoOffset, rot64, rol64, L25.mk.injEq, Nat.reduceMod, Nat.reduceDiv, Nat.reduceAdd, Nat.reduceMul, Nat.reduceSub,
-    UInt64.reduceOfNat, Nat.reduceEqDiff, OfNat.ofNat_ne_zero, reduceIte, if_false, if_true]
-  refine ⟨?_, ?_, ?_, ?_, ?_, ?_, ?_, ?_, ?_, ?_, ?_, ?_, ?_, ?_, ?_, ?_, ?_, ?_, ?_, ?_, ?_, ?_, ?_, ?_, ?_⟩ <;> bv_decide
+    UInt64.reduceOfNat, Nat.reduceEqDiff, reduceIte, if_false, if_true]
+  all_goals (repeat' apply And.intro)
+  all_goals bv_decide
 
 set_option maxRecDepth 100000 in
 set_option maxHeartbeats 4000000 in
@@ -87,8 +90,9 @@ theorem f64Round3_eq (rc : UInt64) (s : L25 UInt64) :
   cases s
   simp only [f64Round3, placed, place3, place0, specRound, gRound, gIota, gChi, gRhoPi, gTheta, ops64, L25.ofFn, L25.get,
     rhoOffset, rot64, rol64, L25.mk.injEq, Nat.reduceMod, Nat.reduceDiv, Nat.reduceAdd, Nat.reduceMul, Nat.reduceSub,
-    UInt64.reduceOfNat, Nat.reduceEqDiff, OfNat.ofNat_ne_zero, reduceIte, if_false, if_true]
-  refine ⟨?_, ?_, ?_, ?_, ?_, ?_, ?_, ?_, ?_, ?_, ?_, ?_, ?_, ?_, ?_, ?_, ?_, ?_, ?_, ?_, ?_, ?_, ?_, ?_, ?_⟩ <;> bv_decide
+    UInt64.reduceOfNat, Nat.reduceEqDiff, reduceIte, if_false, if_true]
+  all_goals (repeat' apply And.intro)
+  all_goals bv_decide
 
 /-! ## 32-bit interleaved rounds, on word pairs -/
 
@@ -101,9 +105,9 @@ theorem f32Round0_eq (rc : UInt32 × UInt32) (w : L25 (UInt32 × UInt32)) :
   rcases rc with ⟨r0, r1⟩
   simp only [f32Round0, placedW, place0, place1, swap0, swap1, gRound, gIota, gChi, gRhoPi, gTheta, opsPair, L25.ofFn, L25.get,
     rhoOffset, rot32, rol32, L25.mk.injEq, Prod.mk.injEq, Nat.reduceMod, Nat.reduceDiv, Nat.reduceAdd, Nat.reduceMul, Nat.reduceSub,
-    UInt32.reduceOfNat, Nat.reduceEqDiff, OfNat.ofNat_ne_zero, reduceIte, if_false, if_true, Bool.false_eq_true]
-  refine ⟨⟨?_, ?_, ?_, ?_, ?_, ?_, ?_, ?_, ?_, ?_, ?_, ?_, ?_, ?_, ?_, ?_, ?_, ?_, ?_, ?_, ?_, ?_, ?_, ?_, ?_⟩,
-          ⟨?_, ?_, ?_, ?_, ?_, ?_, ?_, ?_, ?_, ?_, ?_, ?_, ?_, ?_, ?_, ?_, ?_, ?_, ?_, ?_, ?_, ?_, ?_, ?_, ?_⟩⟩ <;> bv_decide
+    UInt32.reduceOfNat, Nat.reduceEqDiff, reduceIte, if_false, if_true, Bool.false_eq_true]
+  all_goals (repeat' apply And.intro)
+  all_goals bv_decide
 
 set_option maxRecDepth 100000 in
 set_option maxHeartbeats 4000000 in
@@ -114,9 +118,9 @@ theorem f32Round1_eq (rc : UInt32 × UInt32) (w : L25 (UInt32 × UInt32)) :
   rcases rc with ⟨r0, r1⟩
   simp only [f32Round1, placedW, place1, place2, swap1, swap2, gRound, gIota, gChi, gRhoPi, gTheta, opsPair, L25.ofFn, L25.get,
     rhoOffset, rot32, rol32, L25.mk.injEq, Prod.mk.injEq, Nat.reduceMod, Nat.reduceDiv, Nat.reduceAdd, Nat.reduceMul, Nat.reduceSub,
-    UInt32.reduceOfNat, Nat.reduceEqDiff, OfNat.ofNat_ne_zero, reduceIte, if_false, if_true, Bool.false_eq_true]
-  refine ⟨⟨?_, ?_, ?_, ?_, ?_, ?_, ?_, ?_, ?_, ?_, ?_, ?_, ?_, ?_, ?_, ?_, ?_, ?_, ?_, ?_, ?_, ?_, ?_, ?_, ?_⟩,
-          ⟨?_, ?_, ?_, ?_, ?_, ?_, ?_, ?_, ?_, ?_, ?_, ?_, ?_, ?_, ?_, ?_, ?_, ?_, ?_, ?_, ?_, ?_, ?_, ?_, ?_⟩⟩ <;> bv_decide
+    UInt32.reduceOfNat, Nat.reduceEqDiff, reduceIte, if_false, if_true, Bool.false_eq_true]
+  all_goals (repeat' apply And.intro)
+  all_goals bv_decide
 
 set_option maxRecDepth 100000 in
 set_option maxHeartbeats 4000000 in
@@ -127,9 +131,9 @@ theorem f32Round2_eq (rc : UInt32 × UInt32) (w : L25 (UInt32 × UInt32)) :
   rcases rc with ⟨r0, r1⟩
   simp only [f32Round2, placedW, place2, place3, swap2, swap3, gRound, gIota, gChi, gRhoPi, gTheta, opsPair, L25.ofFn, L25.get,
     rhoOffset, rot32, rol32, L25.mk.injEq, Prod.mk.injEq, Nat.reduceMod, Nat.reduceDiv, Nat.reduceAdd, Nat.reduceMul, Nat.reduceSub,
-    UInt32.reduceOfNat, Nat.reduceEqDiff, OfNat.ofNat_ne_zero, reduceIte, if_false, if_true, Bool.false_eq_true]
-  refine ⟨⟨?_, ?_, ?_, ?_, ?_, ?_, ?_, ?_, ?_, ?_, ?_, ?_, ?_, ?_, ?_, ?_, ?_, ?_, ?_, ?_, ?_, ?_, ?_, ?_, ?_⟩,
-          ⟨?_, ?_, ?_, ?_, ?_, ?_, ?_, ?_, ?_, ?_, ?_, ?_, ?_, ?_, ?_, ?_, ?_, ?_, ?_, ?_, ?_, ?_, ?_, ?_, ?_⟩⟩ <;> bv_decide
+    UInt32.reduceOfNat, Nat.reduceEqDiff, reduceIte, if_false, if_true, Bool.false_eq_true]
+  all_goals (repeat' apply And.intro)
+  all_goals bv_decide
 
 set_option maxRecDepth 100000 in
 set_option maxHeartbeats 4000000 in
@@ -140,26 +144,29 @@ theorem f32Round3_eq (rc : UInt32 × UInt32) (w : L25 (UInt32 × UInt32)) :
   rcases rc with ⟨r0, r1⟩
   simp only [f32Round3, placedW, place3, place0, swap3, swap0, gRound, gIota, gChi, gRhoPi, gTheta, opsPair, L25.ofFn, L25.get,
     rhoOffset, rot32, rol32, L25.mk.injEq, Prod.mk.injEq, Nat.reduceMod, Nat.reduceDiv, Nat.reduceAdd, Nat.reduceMul, Nat.reduceSub,
-    UInt32.reduceOfNat, Nat.reduceEqDiff, OfNat.ofNat_ne_zero, reduceIte, if_false, if_true, Bool.false_eq_true]
-  refine ⟨⟨?_, ?_, ?_, ?_, ?_, ?_, ?_, ?_, ?_, ?_, ?_, ?_, ?_, ?_, ?_, ?_, ?_, ?_, ?_, ?_, ?_, ?_, ?_, ?_, ?_⟩,
-          ⟨?_, ?_, ?_, ?_, ?_, ?_, ?_, ?_, ?_, ?_, ?_, ?_, ?_, ?_, ?_, ?_, ?_, ?_, ?_, ?_, ?_, ?_, ?_, ?_, ?_⟩⟩ <;> bv_decide
+    UInt32.reduceOfNat, Nat.reduceEqDiff, reduceIte, if_false, if_true, Bool.false_eq_true]
+  all_goals (repeat' apply And.intro)
+  all_goals bv_decide
 
 /-! ## the interleaving network of xor_lane / extract (32-bit build) -/
 
 theorem interleave32_xor (a b : UInt64) :
     interleave32 (a ^^^ b) = ((interleave32 a).1 ^^^ (interleave32 b).1, (interleave32 a).2 ^^^ (interleave32 b).2) := by
   simp only [interleave32, Prod.mk.injEq]
-  constructor <;> bv_decide
+  all_goals (repeat' apply And.intro)
+  all_goals bv_decide
 
 theorem interleave32_and (a b : UInt64) :
     interleave32 (a &&& b) = ((interleave32 a).1 &&& (interleave32 b).1, (interleave32 a).2 &&& (interleave32 b).2) := by
   simp only [interleave32, Prod.mk.injEq]
-  constructor <;> bv_decide
+  all_goals (repeat' apply And.intro)
+  all_goals bv_decide
 
 theorem interleave32_not (a : UInt64) :
     interleave32 (~~~ a) = (~~~ (interleave32 a).1, ~~~ (interleave32 a).2) := by
   simp only [interleave32, Prod.mk.injEq]
-  constructor <;> bv_decide
+  all_goals (repeat' apply And.intro)
+  all_goals bv_decide
 
 theorem deinterleave32_interleave32 (a : UInt64) :
     deinterleave32 (interleave32 a).1 (interleave32 a).2 = a := by
@@ -169,268 +176,461 @@ theorem deinterleave32_interleave32 (a : UInt64) :
 theorem interleave32_deinterleave32 (w0 w1 : UInt32) :
     interleave32 (deinterleave32 w0 w1) = (w0, w1) := by
   simp only [interleave32, deinterleave32, Prod.mk.injEq]
-  constructor <;> bv_decide
+  all_goals (repeat' apply And.intro)
+  all_goals bv_decide
+
+theorem interleave32_rot_0 (a : UInt64) : interleave32 (rot64 a 0) = opsPair.rot (interleave32 a) 0 := by
+  simp only [interleave32, opsPair, rot64, rol64, rot32, rol32, Prod.mk.injEq, Nat.reduceMod, Nat.reduceDiv, Nat.reduceAdd,
+    Nat.reduceSub, UInt32.reduceOfNat, UInt64.reduceOfNat, Nat.reduceEqDiff, reduceIte, if_false, if_true]
+  all_goals (repeat' apply And.intro)
+  all_goals bv_decide
+
+theorem interleave32_rot_1 (a : UInt64) : interleave32 (rot64 a 1) = opsPair.rot (interleave32 a) 1 := by
+  simp only [interleave32, opsPair, rot64, rol64, rot32, rol32, Prod.mk.injEq, Nat.reduceMod, Nat.reduceDiv, Nat.reduceAdd,
+    Nat.reduceSub, UInt32.reduceOfNat, UInt64.reduceOfNat, Nat.reduceEqDiff, reduceIte, if_false, if_true]
+  all_goals (repeat' apply And.intro)
+  all_goals bv_decide
+
+theorem interleave32_rot_2 (a : UInt64) : interleave32 (rot64 a 2) = opsPair.rot (interleave32 a) 2 := by
+  simp only [interleave32, opsPair, rot64, rol64, rot32, rol32, Prod.mk.injEq, Nat.reduceMod, Nat.reduceDiv, Nat.reduceAdd,
+    Nat.reduceSub, UInt32.reduceOfNat, UInt64.reduceOfNat, Nat.reduceEqDiff, reduceIte, if_false, if_true]
+  all_goals (repeat' apply And.intro)
+  all_goals bv_decide
+
+theorem interleave32_rot_3 (a : UInt64) : interleave32 (rot64 a 3) = opsPair.rot (interleave32 a) 3 := by
+  simp only [interleave32, opsPair, rot64, rol64, rot32, rol32, Prod.mk.injEq, Nat.reduceMod, Nat.reduceDiv, Nat.reduceAdd,
+    Nat.reduceSub, UInt32.reduceOfNat, UInt64.reduceOfNat, Nat.reduceEqDiff, reduceIte, if_false, if_true]
+  all_goals (repeat' apply And.intro)
+  all_goals bv_decide
+
+theorem interleave32_rot_4 (a : UInt64) : interleave32 (rot64 a 4) = opsPair.rot (interleave32 a) 4 := by
+  simp only [interleave32, opsPair, rot64, rol64, rot32, rol32, Prod.mk.injEq, Nat.reduceMod, Nat.reduceDiv, Nat.reduceAdd,
+    Nat.reduceSub, UInt32.reduceOfNat, UInt64.reduceOfNat, Nat.reduceEqDiff, reduceIte, if_false, if_true]
+  all_goals (repeat' apply And.intro)
+  all_goals bv_decide
+
+theorem interleave32_rot_5 (a : UInt64) : interleave32 (rot64 a 5) = opsPair.rot (interleave32 a) 5 := by
+  simp only [interleave32, opsPair, rot64, rol64, rot32, rol32, Prod.mk.injEq, Nat.reduceMod, Nat.reduceDiv, Nat.reduceAdd,
+    Nat.reduceSub, UInt32.reduceOfNat, UInt64.reduceOfNat, Nat.reduceEqDiff, reduceIte, if_false, if_true]
+  all_goals (repeat' apply And.intro)
+  all_goals bv_decide
+
+theorem interleave32_rot_6 (a : UInt64) : interleave32 (rot64 a 6) = opsPair.rot (interleave32 a) 6 := by
+  simp only [interleave32, opsPair, rot64, rol64, rot32, rol32, Prod.mk.injEq, Nat.reduceMod, Nat.reduceDiv, Nat.reduceAdd,
+    Nat.reduceSub, UInt32.reduceOfNat, UInt64.reduceOfNat, Nat.reduceEqDiff, reduceIte, if_false, if_true]
+  all_goals (repeat' apply And.intro)
+  all_goals bv_decide
+
+theorem interleave32_rot_7 (a : UInt64) : interleave32 (rot64 a 7) = opsPair.rot (interleave32 a) 7 := by
+  simp only [interleave32, opsPair, rot64, rol64, rot32, rol32, Prod.mk.injEq, Nat.reduceMod, Nat.reduceDiv, Nat.reduceAdd,
+    Nat.reduceSub, UInt32.reduceOfNat, UInt64.reduceOfNat, Nat.reduceEqDiff, reduceIte, if_false, if_true]
+  all_goals (repeat' apply And.intro)
+  all_goals bv_decide
+
+theorem interleave32_rot_8 (a : UInt64) : interleave32 (rot64 a 8) = opsPair.rot (interleave32 a) 8 := by
+  simp only [interleave32, opsPair, rot64, rol64, rot32, rol32, Prod.mk.injEq, Nat.reduceMod, Nat.reduceDiv, Nat.reduceAdd,
+    Nat.reduceSub, UInt32.reduceOfNat, UInt64.reduceOfNat, Nat.reduceEqDiff, reduceIte, if_false, if_true]
+  all_goals (repeat' apply And.intro)
+  all_goals bv_decide
+
+theorem interleave32_rot_9 (a : UInt64) : interleave32 (rot64 a 9) = opsPair.rot (interleave32 a) 9 := by
+  simp only [interleave32, opsPair, rot64, rol64, rot32, rol32, Prod.mk.injEq, Nat.reduceMod, Nat.reduceDiv, Nat.reduceAdd,
+    Nat.reduceSub, UInt32.reduceOfNat, UInt64.reduceOfNat, Nat.reduceEqDiff, reduceIte, if_false, if_true]
+  all_goals (repeat' apply And.intro)
+  all_goals bv_decide
+
+theorem interleave32_rot_10 (a : UInt64) : interleave32 (rot64 a 10) = opsPair.rot (interleave32 a) 10 := by
+  simp only [interleave32, opsPair, rot64, rol64, rot32, rol32, Prod.mk.injEq, Nat.reduceMod, Nat.reduceDiv, Nat.reduceAdd,
+    Nat.reduceSub, UInt32.reduceOfNat, UInt64.reduceOfNat, Nat.reduceEqDiff, reduceIte, if_false, if_true]
+  all_goals (repeat' apply And.intro)
+  all_goals bv_decide
+
+theorem interleave32_rot_11 (a : UInt64) : interleave32 (rot64 a 11) = opsPair.rot (interleave32 a) 11 := by
+  simp only [interleave32, opsPair, rot64, rol64, rot32, rol32, Prod.mk.injEq, Nat.reduceMod, Nat.reduceDiv, Nat.reduceAdd,
+    Nat.reduceSub, UInt32.reduceOfNat, UInt64.reduceOfNat, Nat.reduceEqDiff, reduceIte, if_false, if_true]
+  all_goals (repeat' apply And.intro)
+  all_goals bv_decide
+
+theorem interleave32_rot_12 (a : UInt64) : interleave32 (rot64 a 12) = opsPair.rot (interleave32 a) 12 := by
+  simp only [interleave32, opsPair, rot64, rol64, rot32, rol32, Prod.mk.injEq, Nat.reduceMod, Nat.reduceDiv, Nat.reduceAdd,
+    Nat.reduceSub, UInt32.reduceOfNat, UInt64.reduceOfNat, Nat.reduceEqDiff, reduceIte, if_false, if_true]
+  all_goals (repeat' apply And.intro)
+  all_goals bv_decide
+
+theorem interleave32_rot_13 (a : UInt64) : interleave32 (rot64 a 13) = opsPair.rot (interleave32 a) 13 := by
+  simp only [interleave32, opsPair, rot64, rol64, rot32, rol32, Prod.mk.injEq, Nat.reduceMod, Nat.reduceDiv, Nat.reduceAdd,
+    Nat.reduceSub, UInt32.reduceOfNat, UInt64.reduceOfNat, Nat.reduceEqDiff, reduceIte, if_false, if_true]
+  all_goals (repeat' apply And.intro)
+  all_goals bv_decide
+
+theorem interleave32_rot_14 (a : UInt64) : interleave32 (rot64 a 14) = opsPair.rot (interleave32 a) 14 := by
+  simp only [interleave32, opsPair, rot64, rol64, rot32, rol32, Prod.mk.injEq, Nat.reduceMod, Nat.reduceDiv, Nat.reduceAdd,
+    Nat.reduceSub, UInt32.reduceOfNat, UInt64.reduceOfNat, Nat.reduceEqDiff, reduceIte, if_false, if_true]
+  all_goals (repeat' apply And.intro)
+  all_goals bv_decide
+
+theorem interleave32_rot_15 (a : UInt64) : interleave32 (rot64 a 15) = opsPair.rot (interleave32 a) 15 := by
+  simp only [interleave32, opsPair, rot64, rol64, rot32, rol32, Prod.mk.injEq, Nat.reduceMod, Nat.reduceDiv, Nat.reduceAdd,
+    Nat.reduceSub, UInt32.reduceOfNat, UInt64.reduceOfNat, Nat.reduceEqDiff, reduceIte, if_false, if_true]
+  all_goals (repeat' apply And.intro)
+  all_goals bv_decide
+
+theorem interleave32_rot_16 (a : UInt64) : interleave32 (rot64 a 16) = opsPair.rot (interleave32 a) 16 := by
+  simp only [interleave32, opsPair, rot64, rol64, rot32, rol32, Prod.mk.injEq, Nat.reduceMod, Nat.reduceDiv, Nat.reduceAdd,
+    Nat.reduceSub, UInt32.reduceOfNat, UInt64.reduceOfNat, Nat.reduceEqDiff, reduceIte, if_false, if_true]
+  all_goals (repeat' apply And.intro)
+  all_goals bv_decide
+
+theorem interleave32_rot_17 (a : UInt64) : interleave32 (rot64 a 17) = opsPair.rot (interleave32 a) 17 := by
+  simp only [interleave32, opsPair, rot64, rol64, rot32, rol32, Prod.mk.injEq, Nat.reduceMod, Nat.reduceDiv, Nat.reduceAdd,
+    Nat.reduceSub, UInt32.reduceOfNat, UInt64.reduceOfNat, Nat.reduceEqDiff, reduceIte, if_false, if_true]
+  all_goals (repeat' apply And.intro)
+  all_goals bv_decide
+
+theorem interleave32_rot_18 (a : UInt64) : interleave32 (rot64 a 18) = opsPair.rot (interleave32 a) 18 := by
+  simp only [interleave32, opsPair, rot64, rol64, rot32, rol32, Prod.mk.injEq, Nat.reduceMod, Nat.reduceDiv, Nat.reduceAdd,
+    Nat.reduceSub, UInt32.reduceOfNat, UInt64.reduceOfNat, Nat.reduceEqDiff, reduceIte, if_false, if_true]
+  all_goals (repeat' apply And.intro)
+  all_goals bv_decide
+
+theorem interleave32_rot_19 (a : UInt64) : interleave32 (rot64 a 19) = opsPair.rot (interleave32 a) 19 := by
+  simp only [interleave32, opsPair, rot64, rol64, rot32, rol32, Prod.mk.injEq, Nat.reduceMod, Nat.reduceDiv, Nat.reduceAdd,
+    Nat.reduceSub, UInt32.reduceOfNat, UInt64.reduceOfNat, Nat.reduceEqDiff, reduceIte, if_false, if_true]
+  all_goals (repeat' apply And.intro)
+  all_goals bv_decide
+
+theorem interleave32_rot_20 (a : UInt64) : interleave32 (rot64 a 20) = opsPair.rot (interleave32 a) 20 := by
+  simp only [interleave32, opsPair, rot64, rol64, rot32, rol32, Prod.mk.injEq, Nat.reduceMod, Nat.reduceDiv, Nat.reduceAdd,
+    Nat.reduceSub, UInt32.reduceOfNat, UInt64.reduceOfNat, Nat.reduceEqDiff, reduceIte, if_false, if_true]
+  all_goals (repeat' apply And.intro)
+  all_goals bv_decide
+
+theorem interleave32_rot_21 (a : UInt64) : interleave32 (rot64 a 21) = opsPair.rot (interleave32 a) 21 := by
+  simp only [interleave32, opsPair, rot64, rol64, rot32, rol32, Prod.mk.injEq, Nat.reduceMod, Nat.reduceDiv, Nat.reduceAdd,
+    Nat.reduceSub, UInt32.reduceOfNat, UInt64.reduceOfNat, Nat.reduceEqDiff, reduceIte, if_false, if_true]
+  all_goals (repeat' apply And.intro)
+  all_goals bv_decide
+
+theorem interleave32_rot_22 (a : UInt64) : interleave32 (rot64 a 22) = opsPair.rot (interleave32 a) 22 := by
+  simp only [interleave32, opsPair, rot64, rol64, rot32, rol32, Prod.mk.injEq, Nat.reduceMod, Nat.reduceDiv, Nat.reduceAdd,
+    Nat.reduceSub, UInt32.reduceOfNat, UInt64.reduceOfNat, Nat.reduceEqDiff, reduceIte, if_false, if_true]
+  all_goals (repeat' apply And.intro)
+  all_goals bv_decide
+
+theorem interleave32_rot_23 (a : UInt64) : interleave32 (rot64 a 23) = opsPair.rot (interleave32 a) 23 := by
+  simp only [interleave32, opsPair, rot64, rol64, rot32, rol32, Prod.mk.injEq, Nat.reduceMod, Nat.reduceDiv, Nat.reduceAdd,
+    Nat.reduceSub, UInt32.reduceOfNat, UInt64.reduceOfNat, Nat.reduceEqDiff, reduceIte, if_false, if_true]
+  all_goals (repeat' apply And.intro)
+  all_goals bv_decide
+
+theorem interleave32_rot_24 (a : UInt64) : interleave32 (rot64 a 24) = opsPair.rot (interleave32 a) 24 := by
+  simp only [interleave32, opsPair, rot64, rol64, rot32, rol32, Prod.mk.injEq, Nat.reduceMod, Nat.reduceDiv, Nat.reduceAdd,
+    Nat.reduceSub, UInt32.reduceOfNat, UInt64.reduceOfNat, Nat.reduceEqDiff, reduceIte, if_false, if_true]
+  all_goals (repeat' apply And.intro)
+  all_goals bv_decide
+
+theorem interleave32_rot_25 (a : UInt64) : interleave32 (rot64 a 25) = opsPair.rot (interleave32 a) 25 := by
+  simp only [interleave32, opsPair, rot64, rol64, rot32, rol32, Prod.mk.injEq, Nat.reduceMod, Nat.reduceDiv, Nat.reduceAdd,
+    Nat.reduceSub, UInt32.reduceOfNat, UInt64.reduceOfNat, Nat.reduceEqDiff, reduceIte, if_false, if_true]
+  all_goals (repeat' apply And.intro)
+  all_goals bv_decide
+
+theorem interleave32_rot_26 (a : UInt64) : interleave32 (rot64 a 26) = opsPair.rot (interleave32 a) 26 := by
+  simp only [interleave32, opsPair, rot64, rol64, rot32, rol32, Prod.mk.injEq, Nat.reduceMod, Nat.reduceDiv, Nat.reduceAdd,
+    Nat.reduceSub, UInt32.reduceOfNat, UInt64.reduceOfNat, Nat.reduceEqDiff, reduceIte, if_false, if_true]
+  all_goals (repeat' apply And.intro)
+  all_goals bv_decide
+
+theorem interleave32_rot_27 (a : UInt64) : interleave32 (rot64 a 27) = opsPair.rot (interleave32 a) 27 := by
+  simp only [interleave32, opsPair, rot64, rol64, rot32, rol32, Prod.mk.injEq, Nat.reduceMod, Nat.reduceDiv, Nat.reduceAdd,
+    Nat.reduceSub, UInt32.reduceOfNat, UInt64.reduceOfNat, Nat.reduceEqDiff, reduceIte, if_false, if_true]
+  all_goals (repeat' apply And.intro)
+  all_goals bv_decide
+
+theorem interleave32_rot_28 (a : UInt64) : interleave32 (rot64 a 28) = opsPair.rot (interleave32 a) 28 := by
+  simp only [interleave32, opsPair, rot64, rol64, rot32, rol32, Prod.mk.injEq, Nat.reduceMod, Nat.reduceDiv, Nat.reduceAdd,
+    Nat.reduceSub, UInt32.reduceOfNat, UInt64.reduceOfNat, Nat.reduceEqDiff, reduceIte, if_false, if_true]
+  all_goals (repeat' apply And.intro)
+  all_goals bv_decide
+
+theorem interleave32_rot_29 (a : UInt64) : interleave32 (rot64 a 29) = opsPair.rot (interleave32 a) 29 := by
+  simp only [interleave32, opsPair, rot64, rol64, rot32, rol32, Prod.mk.injEq, Nat.reduceMod, Nat.reduceDiv, Nat.reduceAdd,
+    Nat.reduceSub, UInt32.reduceOfNat, UInt64.reduceOfNat, Nat.reduceEqDiff, reduceIte, if_false, if_true]
+  all_goals (repeat' apply And.intro)
+  all_goals bv_decide
+
+theorem interleave32_rot_30 (a : UInt64) : interleave32 (rot64 a 30) = opsPair.rot (interleave32 a) 30 := by
+  simp only [interleave32, opsPair, rot64, rol64, rot32, rol32, Prod.mk.injEq, Nat.reduceMod, Nat.reduceDiv, Nat.reduceAdd,
+    Nat.reduceSub, UInt32.reduceOfNat, UInt64.reduceOfNat, Nat.reduceEqDiff, reduceIte, if_false, if_true]
+  all_goals (repeat' apply And.intro)
+  all_goals bv_decide
+
+theorem interleave32_rot_31 (a : UInt64) : interleave32 (rot64 a 31) = opsPair.rot (interleave32 a) 31 := by
+  simp only [interleave32, opsPair, rot64, rol64, rot32, rol32, Prod.mk.injEq, Nat.reduceMod, Nat.reduceDiv, Nat.reduceAdd,
+    Nat.reduceSub, UInt32.reduceOfNat, UInt64.reduceOfNat, Nat.reduceEqDiff, reduceIte, if_false, if_true]
+  all_goals (repeat' apply And.intro)
+  all_goals bv_decide
+
+theorem interleave32_rot_32 (a : UInt64) : interleave32 (rot64 a 32) = opsPair.rot (interleave32 a) 32 := by
+  simp only [interleave32, opsPair, rot64, rol64, rot32, rol32, Prod.mk.injEq, Nat.reduceMod, Nat.reduceDiv, Nat.reduceAdd,
+    Nat.reduceSub, UInt32.reduceOfNat, UInt64.reduceOfNat, Nat.reduceEqDiff, reduceIte, if_false, if_true]
+  all_goals (repeat' apply And.intro)
+  all_goals bv_decide
+
+theorem interleave32_rot_33 (a : UInt64) : interleave32 (rot64 a 33) = opsPair.rot (interleave32 a) 33 := by
+  simp only [interleave32, opsPair, rot64, rol64, rot32, rol32, Prod.mk.injEq, Nat.reduceMod, Nat.reduceDiv, Nat.reduceAdd,
+    Nat.reduceSub, UInt32.reduceOfNat, UInt64.reduceOfNat, Nat.reduceEqDiff, reduceIte, if_false, if_true]
+  all_goals (repeat' apply And.intro)
+  all_goals bv_decide
+
+theorem interleave32_rot_34 (a : UInt64) : interleave32 (rot64 a 34) = opsPair.rot (interleave32 a) 34 := by
+  simp only [interleave32, opsPair, rot64, rol64, rot32, rol32, Prod.mk.injEq, Nat.reduceMod, Nat.reduceDiv, Nat.reduceAdd,
+    Nat.reduceSub, UInt32.reduceOfNat, UInt64.reduceOfNat, Nat.reduceEqDiff, reduceIte, if_false, if_true]
+  all_goals (repeat' apply And.intro)
+  all_goals bv_decide
+
+theorem interleave32_rot_35 (a : UInt64) : interleave32 (rot64 a 35) = opsPair.rot (interleave32 a) 35 := by
+  simp only [interleave32, opsPair, rot64, rol64, rot32, rol32, Prod.mk.injEq, Nat.reduceMod, Nat.reduceDiv, Nat.reduceAdd,
+    Nat.reduceSub, UInt32.reduceOfNat, UInt64.reduceOfNat, Nat.reduceEqDiff, reduceIte, if_false, if_true]
+  all_goals (repeat' apply And.intro)
+  all_goals bv_decide
+
+theorem interleave32_rot_36 (a : UInt64) : interleave32 (rot64 a 36) = opsPair.rot (interleave32 a) 36 := by
+  simp only [interleave32, opsPair, rot64, rol64, rot32, rol32, Prod.mk.injEq, Nat.reduceMod, Nat.reduceDiv, Nat.reduceAdd,
+    Nat.reduceSub, UInt32.reduceOfNat, UInt64.reduceOfNat, Nat.reduceEqDiff, reduceIte, if_false, if_true]
+  all_goals (repeat' apply And.intro)
+  all_goals bv_decide
+
+theorem interleave32_rot_37 (a : UInt64) : interleave32 (rot64 a 37) = opsPair.rot (interleave32 a) 37 := by
+  simp only [interleave32, opsPair, rot64, rol64, rot32, rol32, Prod.mk.injEq, Nat.reduceMod, Nat.reduceDiv, Nat.reduceAdd,
+    Nat.reduceSub, UInt32.reduceOfNat, UInt64.reduceOfNat, Nat.reduceEqDiff, reduceIte, if_false, if_true]
+  all_goals (repeat' apply And.intro)
+  all_goals bv_decide
+
+theorem interleave32_rot_38 (a : UInt64) : interleave32 (rot64 a 38) = opsPair.rot (interleave32 a) 38 := by
+  simp only [interleave32, opsPair, rot64, rol64, rot32, rol32, Prod.mk.injEq, Nat.reduceMod, Nat.reduceDiv, Nat.reduceAdd,
+    Nat.reduceSub, UInt32.reduceOfNat, UInt64.reduceOfNat, Nat.reduceEqDiff, reduceIte, if_false, if_true]
+  all_goals (repeat' apply And.intro)
+  all_goals bv_decide
+
+theorem interleave32_rot_39 (a : UInt64) : interleave32 (rot64 a 39) = opsPair.rot (interleave32 a) 39 := by
+  simp only [interleave32, opsPair, rot64, rol64, rot32, rol32, Prod.mk.injEq, Nat.reduceMod, Nat.reduceDiv, Nat.reduceAdd,
+    Nat.reduceSub, UInt32.reduceOfNat, UInt64.reduceOfNat, Nat.reduceEqDiff, reduceIte, if_false, if_true]
+  all_goals (repeat' apply And.intro)
+  all_goals bv_decide
+
+theorem interleave32_rot_40 (a : UInt64) : interleave32 (rot64 a 40) = opsPair.rot (interleave32 a) 40 := by
+  simp only [interleave32, opsPair, rot64, rol64, rot32, rol32, Prod.mk.injEq, Nat.reduceMod, Nat.reduceDiv, Nat.reduceAdd,
+    Nat.reduceSub, UInt32.reduceOfNat, UInt64.reduceOfNat, Nat.reduceEqDiff, reduceIte, if_false, if_true]
+  all_goals (repeat' apply And.intro)
+  all_goals bv_decide
+
+theorem interleave32_rot_41 (a : UInt64) : interleave32 (rot64 a 41) = opsPair.rot (interleave32 a) 41 := by
+  simp only [interleave32, opsPair, rot64, rol64, rot32, rol32, Prod.mk.injEq, Nat.reduceMod, Nat.reduceDiv, Nat.reduceAdd,
+    Nat.reduceSub, UInt32.reduceOfNat, UInt64.reduceOfNat, Nat.reduceEqDiff, reduceIte, if_false, if_true]
+  all_goals (repeat' apply And.intro)
+  all_goals bv_decide
+
+theorem interleave32_rot_42 (a : UInt64) : interleave32 (rot64 a 42) = opsPair.rot (interleave32 a) 42 := by
+  simp only [interleave32, opsPair, rot64, rol64, rot32, rol32, Prod.mk.injEq, Nat.reduceMod, Nat.reduceDiv, Nat.reduceAdd,
+    Nat.reduceSub, UInt32.reduceOfNat, UInt64.reduceOfNat, Nat.reduceEqDiff, reduceIte, if_false, if_true]
+  all_goals (repeat' apply And.intro)
+  all_goals bv_decide
+
+theorem interleave32_rot_43 (a : UInt64) : interleave32 (rot64 a 43) = opsPair.rot (interleave32 a) 43 := by
+  simp only [interleave32, opsPair, rot64, rol64, rot32, rol32, Prod.mk.injEq, Nat.reduceMod, Nat.reduceDiv, Nat.reduceAdd,
+    Nat.reduceSub, UInt32.reduceOfNat, UInt64.reduceOfNat, Nat.reduceEqDiff, reduceIte, if_false, if_true]
+  all_goals (repeat' apply And.intro)
+  all_goals bv_decide
+
+theorem interleave32_rot_44 (a : UInt64) : interleave32 (rot64 a 44) = opsPair.rot (interleave32 a) 44 := by
+  simp only [interleave32, opsPair, rot64, rol64, rot32, rol32, Prod.mk.injEq, Nat.reduceMod, Nat.reduceDiv, Nat.reduceAdd,
+    Nat.reduceSub, UInt32.reduceOfNat, UInt64.reduceOfNat, Nat.reduceEqDiff, reduceIte, if_false, if_true]
+  all_goals (repeat' apply And.intro)
+  all_goals bv_decide
+
+theorem interleave32_rot_45 (a : UInt64) : interleave32 (rot64 a 45) = opsPair.rot (interleave32 a) 45 := by
+  simp only [interleave32, opsPair, rot64, rol64, rot32, rol32, Prod.mk.injEq, Nat.reduceMod, Nat.reduceDiv, Nat.reduceAdd,
+    Nat.reduceSub, UInt32.reduceOfNat, UInt64.reduceOfNat, Nat.reduceEqDiff, reduceIte, if_false, if_true]
+  all_goals (repeat' apply And.intro)
+  all_goals bv_decide
+
+theorem interleave32_rot_46 (a : UInt64) : interleave32 (rot64 a 46) = opsPair.rot (interleave32 a) 46 := by
+  simp only [interleave32, opsPair, rot64, rol64, rot32, rol32, Prod.mk.injEq, Nat.reduceMod, Nat.reduceDiv, Nat.reduceAdd,
+    Nat.reduceSub, UInt32.reduceOfNat, UInt64.reduceOfNat, Nat.reduceEqDiff, reduceIte, if_false, if_true]
+  all_goals (repeat' apply And.intro)
+  all_goals bv_decide
+
+theorem interleave32_rot_47 (a : UInt64) : interleave32 (rot64 a 47) = opsPair.rot (interleave32 a) 47 := by
+  simp only [interleave32, opsPair, rot64, rol64, rot32, rol32, Prod.mk.injEq, Nat.reduceMod, Nat.reduceDiv, Nat.reduceAdd,
+    Nat.reduceSub, UInt32.reduceOfNat, UInt64.reduceOfNat, Nat.reduceEqDiff, reduceIte, if_false, if_true]
+  all_goals (repeat' apply And.intro)
+  all_goals bv_decide
+
+theorem interleave32_rot_48 (a : UInt64) : interleave32 (rot64 a 48) = opsPair.rot (interleave32 a) 48 := by
+  simp only [interleave32, opsPair, rot64, rol64, rot32, rol32, Prod.mk.injEq, Nat.reduceMod, Nat.reduceDiv, Nat.reduceAdd,
+    Nat.reduceSub, UInt32.reduceOfNat, UInt64.reduceOfNat, Nat.reduceEqDiff, reduceIte, if_false, if_true]
+  all_goals (repeat' apply And.intro)
+  all_goals bv_decide
+
+theorem interleave32_rot_49 (a : UInt64) : interleave32 (rot64 a 49) = opsPair.rot (interleave32 a) 49 := by
+  simp only [interleave32, opsPair, rot64, rol64, rot32, rol32, Prod.mk.injEq, Nat.reduceMod, Nat.reduceDiv, Nat.reduceAdd,
+    Nat.reduceSub, UInt32.reduceOfNat, UInt64.reduceOfNat, Nat.reduceEqDiff, reduceIte, if_false, if_true]
+  all_goals (repeat' apply And.intro)
+  all_goals bv_decide
+
+theorem interleave32_rot_50 (a : UInt64) : interleave32 (rot64 a 50) = opsPair.rot (interleave32 a) 50 := by
+  simp only [interleave32, opsPair, rot64, rol64, rot32, rol32, Prod.mk.injEq, Nat.reduceMod, Nat.reduceDiv, Nat.reduceAdd,
+    Nat.reduceSub, UInt32.reduceOfNat, UInt64.reduceOfNat, Nat.reduceEqDiff, reduceIte, if_false, if_true]
+  all_goals (repeat' apply And.intro)
+  all_goals bv_decide
+
+theorem interleave32_rot_51 (a : UInt64) : interleave32 (rot64 a 51) = opsPair.rot (interleave32 a) 51 := by
+  simp only [interleave32, opsPair, rot64, rol64, rot32, rol32, Prod.mk.injEq, Nat.reduceMod, Nat.reduceDiv, Nat.reduceAdd,
+    Nat.reduceSub, UInt32.reduceOfNat, UInt64.reduceOfNat, Nat.reduceEqDiff, reduceIte, if_false, if_true]
+  all_goals (repeat' apply And.intro)
+  all_goals bv_decide
+
+theorem interleave32_rot_52 (a : UInt64) : interleave32 (rot64 a 52) = opsPair.rot (interleave32 a) 52 := by
+  simp only [interleave32, opsPair, rot64, rol64, rot32, rol32, Prod.mk.injEq, Nat.reduceMod, Nat.reduceDiv, Nat.reduceAdd,
+    Nat.reduceSub, UInt32.reduceOfNat, UInt64.reduceOfNat, Nat.reduceEqDiff, reduceIte, if_false, if_true]
+  all_goals (repeat' apply And.intro)
+  all_goals bv_decide
+
+theorem interleave32_rot_53 (a : UInt64) : interleave32 (rot64 a 53) = opsPair.rot (interleave32 a) 53 := by
+  simp only [interleave32, opsPair, rot64, rol64, rot32, rol32, Prod.mk.injEq, Nat.reduceMod, Nat.reduceDiv, Nat.reduceAdd,
+    Nat.reduceSub, UInt32.reduceOfNat, UInt64.reduceOfNat, Nat.reduceEqDiff, reduceIte, if_false, if_true]
+  all_goals (repeat' apply And.intro)
+  all_goals bv_decide
+
+theorem interleave32_rot_54 (a : UInt64) : interleave32 (rot64 a 54) = opsPair.rot (interleave32 a) 54 := by
+  simp only [interleave32, opsPair, rot64, rol64, rot32, rol32, Prod.mk.injEq, Nat.reduceMod, Nat.reduceDiv, Nat.reduceAdd,
+    Nat.reduceSub, UInt32.reduceOfNat, UInt64.reduceOfNat, Nat.reduceEqDiff, reduceIte, if_false, if_true]
+  all_goals (repeat' apply And.intro)
+  all_goals bv_decide
+
+theorem interleave32_rot_55 (a : UInt64) : interleave32 (rot64 a 55) = opsPair.rot (interleave32 a) 55 := by
+  simp only [interleave32, opsPair, rot64, rol64, rot32, rol32, Prod.mk.injEq, Nat.reduceMod, Nat.reduceDiv, Nat.reduceAdd,
+    Nat.reduceSub, UInt32.reduceOfNat, UInt64.reduceOfNat, Nat.reduceEqDiff, reduceIte, if_false, if_true]
+  all_goals (repeat' apply And.intro)
+  all_goals bv_decide
+
+theorem interleave32_rot_56 (a : UInt64) : interleave32 (rot64 a 56) = opsPair.rot (interleave32 a) 56 := by
+  simp only [interleave32, opsPair, rot64, rol64, rot32, rol32, Prod.mk.injEq, Nat.reduceMod, Nat.reduceDiv, Nat.reduceAdd,
+    Nat.reduceSub, UInt32.reduceOfNat, UInt64.reduceOfNat, Nat.reduceEqDiff, reduceIte, if_false, if_true]
+  all_goals (repeat' apply And.intro)
+  all_goals bv_decide
+
+theorem interleave32_rot_57 (a : UInt64) : interleave32 (rot64 a 57) = opsPair.rot (interleave32 a) 57 := by
+  simp only [interleave32, opsPair, rot64, rol64, rot32, rol32, Prod.mk.injEq, Nat.reduceMod, Nat.reduceDiv, Nat.reduceAdd,
+    Nat.reduceSub, UInt32.reduceOfNat, UInt64.reduceOfNat, Nat.reduceEqDiff, reduceIte, if_false, if_true]
+  all_goals (repeat' apply And.intro)
+  all_goals bv_decide
+
+theorem interleave32_rot_58 (a : UInt64) : interleave32 (rot64 a 58) = opsPair.rot (interleave32 a) 58 := by
+  simp only [interleave32, opsPair, rot64, rol64, rot32, rol32, Prod.mk.injEq, Nat.reduceMod, Nat.reduceDiv, Nat.reduceAdd,
+    Nat.reduceSub, UInt32.reduceOfNat, UInt64.reduceOfNat, Nat.reduceEqDiff, reduceIte, if_false, if_true]
+  all_goals (repeat' apply And.intro)
+  all_goals bv_decide
+
+theorem interleave32_rot_59 (a : UInt64) : interleave32 (rot64 a 59) = opsPair.rot (interleave32 a) 59 := by
+  simp only [interleave32, opsPair, rot64, rol64, rot32, rol32, Prod.mk.injEq, Nat.reduceMod, Nat.reduceDiv, Nat.reduceAdd,
+    Nat.reduceSub, UInt32.reduceOfNat, UInt64.reduceOfNat, Nat.reduceEqDiff, reduceIte, if_false, if_true]
+  all_goals (repeat' apply And.intro)
+  all_goals bv_decide
+
+theorem interleave32_rot_60 (a : UInt64) : interleave32 (rot64 a 60) = opsPair.rot (interleave32 a) 60 := by
+  simp only [interleave32, opsPair, rot64, rol64, rot32, rol32, Prod.mk.injEq, Nat.reduceMod, Nat.reduceDiv, Nat.reduceAdd,
+    Nat.reduceSub, UInt32.reduceOfNat, UInt64.reduceOfNat, Nat.reduceEqDiff, reduceIte, if_false, if_true]
+  all_goals (repeat' apply And.intro)
+  all_goals bv_decide
+
+theorem interleave32_rot_61 (a : UInt64) : interleave32 (rot64 a 61) = opsPair.rot (interleave32 a) 61 := by
+  simp only [interleave32, opsPair, rot64, rol64, rot32, rol32, Prod.mk.injEq, Nat.reduceMod, Nat.reduceDiv, Nat.reduceAdd,
+    Nat.reduceSub, UInt32.reduceOfNat, UInt64.reduceOfNat, Nat.reduceEqDiff, reduceIte, if_false, if_true]
+  all_goals (repeat' apply And.intro)
+  all_goals bv_decide
+
+theorem interleave32_rot_62 (a : UInt64) : interleave32 (rot64 a 62) = opsPair.rot (interleave32 a) 62 := by
+  simp only [interleave32, opsPair, rot64, rol64, rot32, rol32, Prod.mk.injEq, Nat.reduceMod, Nat.reduceDiv, Nat.reduceAdd,
+    Nat.reduceSub, UInt32.reduceOfNat, UInt64.reduceOfNat, Nat.reduceEqDiff, reduceIte, if_false, if_true]
+  all_goals (repeat' apply And.intro)
+  all_goals bv_decide
+
+theorem interleave32_rot_63 (a : UInt64) : interleave32 (rot64 a 63) = opsPair.rot (interleave32 a) 63 := by
+  simp only [interleave32, opsPair, rot64, rol64, rot32, rol32, Prod.mk.injEq, Nat.reduceMod, Nat.reduceDiv, Nat.reduceAdd,
+    Nat.reduceSub, UInt32.reduceOfNat, UInt64.reduceOfNat, Nat.reduceEqDiff, reduceIte, if_false, if_true]
+  all_goals (repeat' apply And.intro)
+  all_goals bv_decide
 
 /-- a lane rotation seen through the interleaving: both halves rotate by n/2; for odd n they change places
     and the former odd half rotates one further -/
 theorem interleave32_rot (a : UInt64) : ∀ (n : Nat), n < 64 →
     interleave32 (rot64 a n) = opsPair.rot (interleave32 a) n
-  | 0, _ => by
-    simp only [interleave32, opsPair, rot64, rol64, rot32, rol32, Prod.mk.injEq, Nat.reduceMod, Nat.reduceDiv, Nat.reduceAdd,
-      Nat.reduceSub, UInt32.reduceOfNat, UInt64.reduceOfNat, Nat.reduceEqDiff, OfNat.ofNat_ne_zero, reduceIte, if_false, if_true]
-    constructor <;> bv_decide
-  | 1, _ => by
-    simp only [interleave32, opsPair, rot64, rol64, rot32, rol32, Prod.mk.injEq, Nat.reduceMod, Nat.reduceDiv, Nat.reduceAdd,
-      Nat.reduceSub, UInt32.reduceOfNat, UInt64.reduceOfNat, Nat.reduceEqDiff, OfNat.ofNat_ne_zero, reduceIte, if_false, if_true]
-    constructor <;> bv_decide
-  | 2, _ => by
-    simp only [interleave32, opsPair, rot64, rol64, rot32, rol32, Prod.mk.injEq, Nat.reduceMod, Nat.reduceDiv, Nat.reduceAdd,
-      Nat.reduceSub, UInt32.reduceOfNat, UInt64.reduceOfNat, Nat.reduceEqDiff, OfNat.ofNat_ne_zero, reduceIte, if_false, if_true]
-    constructor <;> bv_decide
-  | 3, _ => by
-    simp only [interleave32, opsPair, rot64, rol64, rot32, rol32, Prod.mk.injEq, Nat.reduceMod, Nat.reduceDiv, Nat.reduceAdd,
-      Nat.reduceSub, UInt32.reduceOfNat, UInt64.reduceOfNat, Nat.reduceEqDiff, OfNat.ofNat_ne_zero, reduceIte, if_false, if_true]
-    constructor <;> bv_decide
-  | 4, _ => by
-    simp only [interleave32, opsPair, rot64, rol64, rot32, rol32, Prod.mk.injEq, Nat.reduceMod, Nat.reduceDiv, Nat.reduceAdd,
-      Nat.reduceSub, UInt32.reduceOfNat, UInt64.reduceOfNat, Nat.reduceEqDiff, OfNat.ofNat_ne_zero, reduceIte, if_false, if_true]
-    constructor <;> bv_decide
-  | 5, _ => by
-    simp only [interleave32, opsPair, rot64, rol64, rot32, rol32, Prod.mk.injEq, Nat.reduceMod, Nat.reduceDiv, Nat.reduceAdd,
-      Nat.reduceSub, UInt32.reduceOfNat, UInt64.reduceOfNat, Nat.reduceEqDiff, OfNat.ofNat_ne_zero, reduceIte, if_false, if_true]
-    constructor <;> bv_decide
-  | 6, _ => by
-    simp only [interleave32, opsPair, rot64, rol64, rot32, rol32, Prod.mk.injEq, Nat.reduceMod, Nat.reduceDiv, Nat.reduceAdd,
-      Nat.reduceSub, UInt32.reduceOfNat, UInt64.reduceOfNat, Nat.reduceEqDiff, OfNat.ofNat_ne_zero, reduceIte, if_false, if_true]
-    constructor <;> bv_decide
-  | 7, _ => by
-    simp only [interleave32, opsPair, rot64, rol64, rot32, rol32, Prod.mk.injEq, Nat.reduceMod, Nat.reduceDiv, Nat.reduceAdd,
-      Nat.reduceSub, UInt32.reduceOfNat, UInt64.reduceOfNat, Nat.reduceEqDiff, OfNat.ofNat_ne_zero, reduceIte, if_false, if_true]
-    constructor <;> bv_decide
-  | 8, _ => by
-    simp only [interleave32, opsPair, rot64, rol64, rot32, rol32, Prod.mk.injEq, Nat.reduceMod, Nat.reduceDiv, Nat.reduceAdd,
-      Nat.reduceSub, UInt32.reduceOfNat, UInt64.reduceOfNat, Nat.reduceEqDiff, OfNat.ofNat_ne_zero, reduceIte, if_false, if_true]
-    constructor <;> bv_decide
-  | 9, _ => by
-    simp only [interleave32, opsPair, rot64, rol64, rot32, rol32, Prod.mk.injEq, Nat.reduceMod, Nat.reduceDiv, Nat.reduceAdd,
-      Nat.reduceSub, UInt32.reduceOfNat, UInt64.reduceOfNat, Nat.reduceEqDiff, OfNat.ofNat_ne_zero, reduceIte, if_false, if_true]
-    constructor <;> bv_decide
-  | 10, _ => by
-    simp only [interleave32, opsPair, rot64, rol64, rot32, rol32, Prod.mk.injEq, Nat.reduceMod, Nat.reduceDiv, Nat.reduceAdd,
-      Nat.reduceSub, UInt32.reduceOfNat, UInt64.reduceOfNat, Nat.reduceEqDiff, OfNat.ofNat_ne_zero, reduceIte, if_false, if_true]
-    constructor <;> bv_decide
-  | 11, _ => by
-    simp only [interleave32, opsPair, rot64, rol64, rot32, rol32, Prod.mk.injEq, Nat.reduceMod, Nat.reduceDiv, Nat.reduceAdd,
-      Nat.reduceSub, UInt32.reduceOfNat, UInt64.reduceOfNat, Nat.reduceEqDiff, OfNat.ofNat_ne_zero, reduceIte, if_false, if_true]
-    constructor <;> bv_decide
-  | 12, _ => by
-    simp only [interleave32, opsPair, rot64, rol64, rot32, rol32, Prod.mk.injEq, Nat.reduceMod, Nat.reduceDiv, Nat.reduceAdd,
-      Nat.reduceSub, UInt32.reduceOfNat, UInt64.reduceOfNat, Nat.reduceEqDiff, OfNat.ofNat_ne_zero, reduceIte, if_false, if_true]
-    constructor <;> bv_decide
-  | 13, _ => by
-    simp only [interleave32, opsPair, rot64, rol64, rot32, rol32, Prod.mk.injEq, Nat.reduceMod, Nat.reduceDiv, Nat.reduceAdd,
-      Nat.reduceSub, UInt32.reduceOfNat, UInt64.reduceOfNat, Nat.reduceEqDiff, OfNat.ofNat_ne_zero, reduceIte, if_false, if_true]
-    constructor <;> bv_decide
-  | 14, _ => by
-    simp only [interleave32, opsPair, rot64, rol64, rot32, rol32, Prod.mk.injEq, Nat.reduceMod, Nat.reduceDiv, Nat.reduceAdd,
-      Nat.reduceSub, UInt32.reduceOfNat, UInt64.reduceOfNat, Nat.reduceEqDiff, OfNat.ofNat_ne_zero, reduceIte, if_false, if_true]
-    constructor <;> bv_decide
-  | 15, _ => by
-    simp only [interleave32, opsPair, rot64, rol64, rot32, rol32, Prod.mk.injEq, Nat.reduceMod, Nat.reduceDiv, Nat.reduceAdd,
-      Nat.reduceSub, UInt32.reduceOfNat, UInt64.reduceOfNat, Nat.reduceEqDiff, OfNat.ofNat_ne_zero, reduceIte, if_false, if_true]
-    constructor <;> bv_decide
-  | 16, _ => by
-    simp only [interleave32, opsPair, rot64, rol64, rot32, rol32, Prod.mk.injEq, Nat.reduceMod, Nat.reduceDiv, Nat.reduceAdd,
-      Nat.reduceSub, UInt32.reduceOfNat, UInt64.reduceOfNat, Nat.reduceEqDiff, OfNat.ofNat_ne_zero, reduceIte, if_false, if_true]
-    constructor <;> bv_decide
-  | 17, _ => by
-    simp only [interleave32, opsPair, rot64, rol64, rot32, rol32, Prod.mk.injEq, Nat.reduceMod, Nat.reduceDiv, Nat.reduceAdd,
-      Nat.reduceSub, UInt32.reduceOfNat, UInt64.reduceOfNat, Nat.reduceEqDiff, OfNat.ofNat_ne_zero, reduceIte, if_false, if_true]
-    constructor <;> bv_decide
-  | 18, _ => by
-    simp only [interleave32, opsPair, rot64, rol64, rot32, rol32, Prod.mk.injEq, Nat.reduceMod, Nat.reduceDiv, Nat.reduceAdd,
-      Nat.reduceSub, UInt32.reduceOfNat, UInt64.reduceOfNat, Nat.reduceEqDiff, OfNat.ofNat_ne_zero, reduceIte, if_false, if_true]
-    constructor <;> bv_decide
-  | 19, _ => by
-    simp only [interleave32, opsPair, rot64, rol64, rot32, rol32, Prod.mk.injEq, Nat.reduceMod, Nat.reduceDiv, Nat.reduceAdd,
-      Nat.reduceSub, UInt32.reduceOfNat, UInt64.reduceOfNat, Nat.reduceEqDiff, OfNat.ofNat_ne_zero, reduceIte, if_false, if_true]
-    constructor <;> bv_decide
-  | 20, _ => by
-    simp only [interleave32, opsPair, rot64, rol64, rot32, rol32, Prod.mk.injEq, Nat.reduceMod, Nat.reduceDiv, Nat.reduceAdd,
-      Nat.reduceSub, UInt32.reduceOfNat, UInt64.reduceOfNat, Nat.reduceEqDiff, OfNat.ofNat_ne_zero, reduceIte, if_false, if_true]
-    constructor <;> bv_decide
-  | 21, _ => by
-    simp only [interleave32, opsPair, rot64, rol64, rot32, rol32, Prod.mk.injEq, Nat.reduceMod, Nat.reduceDiv, Nat.reduceAdd,
-      Nat.reduceSub, UInt32.reduceOfNat, UInt64.reduceOfNat, Nat.reduceEqDiff, OfNat.ofNat_ne_zero, reduceIte, if_false, if_true]
-    constructor <;> bv_decide
-  | 22, _ => by
-    simp only [interleave32, opsPair, rot64, rol64, rot32, rol32, Prod.mk.injEq, Nat.reduceMod, Nat.reduceDiv, Nat.reduceAdd,
-      Nat.reduceSub, UInt32.reduceOfNat, UInt64.reduceOfNat, Nat.reduceEqDiff, OfNat.ofNat_ne_zero, reduceIte, if_false, if_true]
-    constructor <;> bv_decide
-  | 23, _ => by
-    simp only [interleave32, opsPair, rot64, rol64, rot32, rol32, Prod.mk.injEq, Nat.reduceMod, Nat.reduceDiv, Nat.reduceAdd,
-      Nat.reduceSub, UInt32.reduceOfNat, UInt64.reduceOfNat, Nat.reduceEqDiff, OfNat.ofNat_ne_zero, reduceIte, if_false, if_true]
-    constructor <;> bv_decide
-  | 24, _ => by
-    simp only [interleave32, opsPair, rot64, rol64, rot32, rol32, Prod.mk.injEq, Nat.reduceMod, Nat.reduceDiv, Nat.reduceAdd,
-      Nat.reduceSub, UInt32.reduceOfNat, UInt64.reduceOfNat, Nat.reduceEqDiff, OfNat.ofNat_ne_zero, reduceIte, if_false, if_true]
-    constructor <;> bv_decide
-  | 25, _ => by
-    simp only [interleave32, opsPair, rot64, rol64, rot32, rol32, Prod.mk.injEq, Nat.reduceMod, Nat.reduceDiv, Nat.reduceAdd,
-      Nat.reduceSub, UInt32.reduceOfNat, UInt64.reduceOfNat, Nat.reduceEqDiff, OfNat.ofNat_ne_zero, reduceIte, if_false, if_true]
-    constructor <;> bv_decide
-  | 26, _ => by
-    simp only [interleave32, opsPair, rot64, rol64, rot32, rol32, Prod.mk.injEq, Nat.reduceMod, Nat.reduceDiv, Nat.reduceAdd,
-      Nat.reduceSub, UInt32.reduceOfNat, UInt64.reduceOfNat, Nat.reduceEqDiff, OfNat.ofNat_ne_zero, reduceIte, if_false, if_true]
-    constructor <;> bv_decide
-  | 27, _ => by
-    simp only [interleave32, opsPair, rot64, rol64, rot32, rol32, Prod.mk.injEq, Nat.reduceMod, Nat.reduceDiv, Nat.reduceAdd,
-      Nat.reduceSub, UInt32.reduceOfNat, UInt64.reduceOfNat, Nat.reduceEqDiff, OfNat.ofNat_ne_zero, reduceIte, if_false, if_true]
-    constructor <;> bv_decide
-  | 28, _ => by
-    simp only [interleave32, opsPair, rot64, rol64, rot32, rol32, Prod.mk.injEq, Nat.reduceMod, Nat.reduceDiv, Nat.reduceAdd,
-      Nat.reduceSub, UInt32.reduceOfNat, UInt64.reduceOfNat, Nat.reduceEqDiff, OfNat.ofNat_ne_zero, reduceIte, if_false, if_true]
-    constructor <;> bv_decide
-  | 29, _ => by
-    simp only [interleave32, opsPair, rot64, rol64, rot32, rol32, Prod.mk.injEq, Nat.reduceMod, Nat.reduceDiv, Nat.reduceAdd,
-      Nat.reduceSub, UInt32.reduceOfNat, UInt64.reduceOfNat, Nat.reduceEqDiff, OfNat.ofNat_ne_zero, reduceIte, if_false, if_true]
-    constructor <;> bv_decide
-  | 30, _ => by
-    simp only [interleave32, opsPair, rot64, rol64, rot32, rol32, Prod.mk.injEq, Nat.reduceMod, Nat.reduceDiv, Nat.reduceAdd,
-      Nat.reduceSub, UInt32.reduceOfNat, UInt64.reduceOfNat, Nat.reduceEqDiff, OfNat.ofNat_ne_zero, reduceIte, if_false, if_true]
-    constructor <;> bv_decide
-  | 31, _ => by
-    simp only [interleave32, opsPair, rot64, rol64, rot32, rol32, Prod.mk.injEq, Nat.reduceMod, Nat.reduceDiv, Nat.reduceAdd,
-      Nat.reduceSub, UInt32.reduceOfNat, UInt64.reduceOfNat, Nat.reduceEqDiff, OfNat.ofNat_ne_zero, reduceIte, if_false, if_true]
-    constructor <;> bv_decide
-  | 32, _ => by
-    simp only [interleave32, opsPair, rot64, rol64, rot32, rol32, Prod.mk.injEq, Nat.reduceMod, Nat.reduceDiv, Nat.reduceAdd,
-      Nat.reduceSub, UInt32.reduceOfNat, UInt64.reduceOfNat, Nat.reduceEqDiff, OfNat.ofNat_ne_zero, reduceIte, if_false, if_true]
-    constructor <;> bv_decide
-  | 33, _ => by
-    simp only [interleave32, opsPair, rot64, rol64, rot32, rol32, Prod.mk.injEq, Nat.reduceMod, Nat.reduceDiv, Nat.reduceAdd,
-      Nat.reduceSub, UInt32.reduceOfNat, UInt64.reduceOfNat, Nat.reduceEqDiff, OfNat.ofNat_ne_zero, reduceIte, if_false, if_true]
-    constructor <;> bv_decide
-  | 34, _ => by
-    simp only [interleave32, opsPair, rot64, rol64, rot32, rol32, Prod.mk.injEq, Nat.reduceMod, Nat.reduceDiv, Nat.reduceAdd,
-      Nat.reduceSub, UInt32.reduceOfNat, UInt64.reduceOfNat, Nat.reduceEqDiff, OfNat.ofNat_ne_zero, reduceIte, if_false, if_true]
-    constructor <;> bv_decide
-  | 35, _ => by
-    simp only [interleave32, opsPair, rot64, rol64, rot32, rol32, Prod.mk.injEq, Nat.reduceMod, Nat.reduceDiv, Nat.reduceAdd,
-      Nat.reduceSub, UInt32.reduceOfNat, UInt64.reduceOfNat, Nat.reduceEqDiff, OfNat.ofNat_ne_zero, reduceIte, if_false, if_true]
-    constructor <;> bv_decide
-  | 36, _ => by
-    simp only [interleave32, opsPair, rot64, rol64, rot32, rol32, Prod.mk.injEq, Nat.reduceMod, Nat.reduceDiv, Nat.reduceAdd,
-      Nat.reduceSub, UInt32.reduceOfNat, UInt64.reduceOfNat, Nat.reduceEqDiff, OfNat.ofNat_ne_zero, reduceIte, if_false, if_true]
-    constructor <;> bv_decide
-  | 37, _ => by
-    simp only [interleave32, opsPair, rot64, rol64, rot32, rol32, Prod.mk.injEq, Nat.reduceMod, Nat.reduceDiv, Nat.reduceAdd,
-      Nat.reduceSub, UInt32.reduceOfNat, UInt64.reduceOfNat, Nat.reduceEqDiff, OfNat.ofNat_ne_zero, reduceIte, if_false, if_true]
-    constructor <;> bv_decide
-  | 38, _ => by
-    simp only [interleave32, opsPair, rot64, rol64, rot32, rol32, Prod.mk.injEq, Nat.reduceMod, Nat.reduceDiv, Nat.reduceAdd,
-      Nat.reduceSub, UInt32.reduceOfNat, UInt64.reduceOfNat, Nat.reduceEqDiff, OfNat.ofNat_ne_zero, reduceIte, if_false, if_true]
-    constructor <;> bv_decide
-  | 39, _ => by
-    simp only [interleave32, opsPair, rot64, rol64, rot32, rol32, Prod.mk.injEq, Nat.reduceMod, Nat.reduceDiv, Nat.reduceAdd,
-      Nat.reduceSub, UInt32.reduceOfNat, UInt64.reduceOfNat, Nat.reduceEqDiff, OfNat.ofNat_ne_zero, reduceIte, if_false, if_true]
-    constructor <;> bv_decide
-  | 40, _ => by
-    simp only [interleave32, opsPair, rot64, rol64, rot32, rol32, Prod.mk.injEq, Nat.reduceMod, Nat.reduceDiv, Nat.reduceAdd,
-      Nat.reduceSub, UInt32.reduceOfNat, UInt64.reduceOfNat, Nat.reduceEqDiff, OfNat.ofNat_ne_zero, reduceIte, if_false, if_true]
-    constructor <;> bv_decide
-  | 41, _ => by
-    simp only [interleave32, opsPair, rot64, rol64, rot32, rol32, Prod.mk.injEq, Nat.reduceMod, Nat.reduceDiv, Nat.reduceAdd,
-      Nat.reduceSub, UInt32.reduceOfNat, UInt64.reduceOfNat, Nat.reduceEqDiff, OfNat.ofNat_ne_zero, reduceIte, if_false, if_true]
-    constructor <;> bv_decide
-  | 42, _ => by
-    simp only [interleave32, opsPair, rot64, rol64, rot32, rol32, Prod.mk.injEq, Nat.reduceMod, Nat.reduceDiv, Nat.reduceAdd,
-      Nat.reduceSub, UInt32.reduceOfNat, UInt64.reduceOfNat, Nat.reduceEqDiff, OfNat.ofNat_ne_zero, reduceIte, if_false, if_true]
-    constructor <;> bv_decide
-  | 43, _ => by
-    simp only [interleave32, opsPair, rot64, rol64, rot32, rol32, Prod.mk.injEq, Nat.reduceMod, Nat.reduceDiv, Nat.reduceAdd,
-      Nat.reduceSub, UInt32.reduceOfNat, UInt64.reduceOfNat, Nat.reduceEqDiff, OfNat.ofNat_ne_zero, reduceIte, if_false, if_true]
-    constructor <;> bv_decide
-  | 44, _ => by
-    simp only [interleave32, opsPair, rot64, rol64, rot32, rol32, Prod.mk.injEq, Nat.reduceMod, Nat.reduceDiv, Nat.reduceAdd,
-      Nat.reduceSub, UInt32.reduceOfNat, UInt64.reduceOfNat, Nat.reduceEqDiff, OfNat.ofNat_ne_zero, reduceIte, if_false, if_true]
-    constructor <;> bv_decide
-  | 45, _ => by
-    simp only [interleave32, opsPair, rot64, rol64, rot32, rol32, Prod.mk.injEq, Nat.reduceMod, Nat.reduceDiv, Nat.reduceAdd,
-      Nat.reduceSub, UInt32.reduceOfNat, UInt64.reduceOfNat, Nat.reduceEqDiff, OfNat.ofNat_ne_zero, reduceIte, if_false, if_true]
-    constructor <;> bv_decide
-  | 46, _ => by
-    simp only [interleave32, opsPair, rot64, rol64, rot32, rol32, Prod.mk.injEq, Nat.reduceMod, Nat.reduceDiv, Nat.reduceAdd,
-      Nat.reduceSub, UInt32.reduceOfNat, UInt64.reduceOfNat, Nat.reduceEqDiff, OfNat.ofNat_ne_zero, reduceIte, if_false, if_true]
-    constructor <;> bv_decide
-  | 47, _ => by
-    simp only [interleave32, opsPair, rot64, rol64, rot32, rol32, Prod.mk.injEq, Nat.reduceMod, Nat.reduceDiv, Nat.reduceAdd,
-      Nat.reduceSub, UInt32.reduceOfNat, UInt64.reduceOfNat, Nat.reduceEqDiff, OfNat.ofNat_ne_zero, reduceIte, if_false, if_true]
-    constructor <;> bv_decide
-  | 48, _ => by
-    simp only [interleave32, opsPair, rot64, rol64, rot32, rol32, Prod.mk.injEq, Nat.reduceMod, Nat.reduceDiv, Nat.reduceAdd,
-      Nat.reduceSub, UInt32.reduceOfNat, UInt64.reduceOfNat, Nat.reduceEqDiff, OfNat.ofNat_ne_zero, reduceIte, if_false, if_true]
-    constructor <;> bv_decide
-  | 49, _ => by
-    simp only [interleave32, opsPair, rot64, rol64, rot32, rol32, Prod.mk.injEq, Nat.reduceMod, Nat.reduceDiv, Nat.reduceAdd,
-      Nat.reduceSub, UInt32.reduceOfNat, UInt64.reduceOfNat, Nat.reduceEqDiff, OfNat.ofNat_ne_zero, reduceIte, if_false, if_true]
-    constructor <;> bv_decide
-  | 50, _ => by
-    simp only [interleave32, opsPair, rot64, rol64, rot32, rol32, Prod.mk.injEq, Nat.reduceMod, Nat.reduceDiv, Nat.reduceAdd,
-      Nat.reduceSub, UInt32.reduceOfNat, UInt64.reduceOfNat, Nat.reduceEqDiff, OfNat.ofNat_ne_zero, reduceIte, if_false, if_true]
-    constructor <;> bv_decide
-  | 51, _ => by
-    simp only [interleave32, opsPair, rot64, rol64, rot32, rol32, Prod.mk.injEq, Nat.reduceMod, Nat.reduceDiv, Nat.reduceAdd,
-      Nat.reduceSub, UInt32.reduceOfNat, UInt64.reduceOfNat, Nat.reduceEqDiff, OfNat.ofNat_ne_zero, reduceIte, if_false, if_true]
-    constructor <;> bv_decide
-  | 52, _ => by
-    simp only [interleave32, opsPair, rot64, rol64, rot32, rol32, Prod.mk.injEq, Nat.reduceMod, Nat.reduceDiv, Nat.reduceAdd,
-      Nat.reduceSub, UInt32.reduceOfNat, UInt64.reduceOfNat, Nat.reduceEqDiff, OfNat.ofNat_ne_zero, reduceIte, if_false, if_true]
-    constructor <;> bv_decide
-  | 53, _ => by
-    simp only [interleave32, opsPair, rot64, rol64, rot32, rol32, Prod.mk.injEq, Nat.reduceMod, Nat.reduceDiv, Nat.reduceAdd,
-      Nat.reduceSub, UInt32.reduceOfNat, UInt64.reduceOfNat, Nat.reduceEqDiff, OfNat.ofNat_ne_zero, reduceIte, if_false, if_true]
-    constructor <;> bv_decide
-  | 54, _ => by
-    simp only [interleave32, opsPair, rot64, rol64, rot32, rol32, Prod.mk.injEq, Nat.reduceMod, Nat.reduceDiv, Nat.reduceAdd,
-      Nat.reduceSub, UInt32.reduceOfNat, UInt64.reduceOfNat, Nat.reduceEqDiff, OfNat.ofNat_ne_zero, reduceIte, if_false, if_true]
-    constructor <;> bv_decide
-  | 55, _ => by
-    simp only [interleave32, opsPair, rot64, rol64, rot32, rol32, Prod.mk.injEq, Nat.reduceMod, Nat.reduceDiv, Nat.reduceAdd,
-      Nat.reduceSub, UInt32.reduceOfNat, UInt64.reduceOfNat, Nat.reduceEqDiff, OfNat.ofNat_ne_zero, reduceIte, if_false, if_true]
-    constructor <;> bv_decide
-  | 56, _ => by
-    simp only [interleave32, opsPair, rot64, rol64, rot32, rol32, Prod.mk.injEq, Nat.reduceMod, Nat.reduceDiv, Nat.reduceAdd,
-      Nat.reduceSub, UInt32.reduceOfNat, UInt64.reduceOfNat, Nat.reduceEqDiff, OfNat.ofNat_ne_zero, reduceIte, if_false, if_true]
-    constructor <;> bv_decide
-  | 57, _ => by
-    simp only [interleave32, opsPair, rot64, rol64, rot32, rol32, Prod.mk.injEq, Nat.reduceMod, Nat.reduceDiv, Nat.reduceAdd,
-      Nat.reduceSub, UInt32.reduceOfNat, UInt64.reduceOfNat, Nat.reduceEqDiff, OfNat.ofNat_ne_zero, reduceIte, if_false, if_true]
-    constructor <;> bv_decide
-  | 58, _ => by
-    simp only [interleave32, opsPair, rot64, rol64, rot32, rol32, Prod.mk.injEq, Nat.reduceMod, Nat.reduceDiv, Nat.reduceAdd,
-      Nat.reduceSub, UInt32.reduceOfNat, UInt64.reduceOfNat, Nat.reduceEqDiff, OfNat.ofNat_ne_zero, reduceIte, if_false, if_true]
-    constructor <;> bv_decide
-  | 59, _ => by
-    simp only [interleave32, opsPair, rot64, rol64, rot32, rol32, Prod.mk.injEq, Nat.reduceMod, Nat.reduceDiv, Nat.reduceAdd,
-      Nat.reduceSub, UInt32.reduceOfNat, UInt64.reduceOfNat, Nat.reduceEqDiff, OfNat.ofNat_ne_zero, reduceIte, if_false, if_true]
-    constructor <;> bv_decide
-  | 60, _ => by
-    simp only [interleave32, opsPair, rot64, rol64, rot32, rol32, Prod.mk.injEq, Nat.reduceMod, Nat.reduceDiv, Nat.reduceAdd,
-      Nat.reduceSub, UInt32.reduceOfNat, UInt64.reduceOfNat, Nat.reduceEqDiff, OfNat.ofNat_ne_zero, reduceIte, if_false, if_true]
-    constructor <;> bv_decide
-  | 61, _ => by
-    simp only [interleave32, opsPair, rot64, rol64, rot32, rol32, Prod.mk.injEq, Nat.reduceMod, Nat.reduceDiv, Nat.reduceAdd,
-      Nat.reduceSub, UInt32.reduceOfNat, UInt64.reduceOfNat, Nat.reduceEqDiff, OfNat.ofNat_ne_zero, reduceIte, if_false, if_true]
-    constructor <;> bv_decide
-  | 62, _ => by
-    simp only [interleave32, opsPair, rot64, rol64, rot32, rol32, Prod.mk.injEq, Nat.reduceMod, Nat.reduceDiv, Nat.reduceAdd,
-      Nat.reduceSub, UInt32.reduceOfNat, UInt64.reduceOfNat, Nat.reduceEqDiff, OfNat.ofNat_ne_zero, reduceIte, if_false, if_true]
-    constructor <;> bv_decide
-  | 63, _ => by
-    simp only [interleave32, opsPair, rot64, rol64, rot32, rol32, Prod.mk.injEq, Nat.reduceMod, Nat.reduceDiv, Nat.reduceAdd,
-      Nat.reduceSub, UInt32.reduceOfNat, UInt64.reduceOfNat, Nat.reduceEqDiff, OfNat.ofNat_ne_zero, reduceIte, if_false, if_true]
-    constructor <;> bv_decide
+  | 0, _ => interleave32_rot_0 a
+  | 1, _ => interleave32_rot_1 a
+  | 2, _ => interleave32_rot_2 a
+  | 3, _ => interleave32_rot_3 a
+  | 4, _ => interleave32_rot_4 a
+  | 5, _ => interleave32_rot_5 a
+  | 6, _ => interleave32_rot_6 a
+  | 7, _ => interleave32_rot_7 a
+  | 8, _ => interleave32_rot_8 a
+  | 9, _ => interleave32_rot_9 a
+  | 10, _ => interleave32_rot_10 a
+  | 11, _ => interleave32_rot_11 a
+  | 12, _ => interleave32_rot_12 a
+  | 13, _ => interleave32_rot_13 a
+  | 14, _ => interleave32_rot_14 a
+  | 15, _ => interleave32_rot_15 a
+  | 16, _ => interleave32_rot_16 a
+  | 17, _ => interleave32_rot_17 a
+  | 18, _ => interleave32_rot_18 a
+  | 19, _ => interleave32_rot_19 a
+  | 20, _ => interleave32_rot_20 a
+  | 21, _ => interleave32_rot_21 a
+  | 22, _ => interleave32_rot_22 a
+  | 23, _ => interleave32_rot_23 a
+  | 24, _ => interleave32_rot_24 a
+  | 25, _ => interleave32_rot_25 a
+  | 26, _ => interleave32_rot_26 a
+  | 27, _ => interleave32_rot_27 a
+  | 28, _ => interleave32_rot_28 a
+  | 29, _ => interleave32_rot_29 a
+  | 30, _ => interleave32_rot_30 a
+  | 31, _ => interleave32_rot_31 a
+  | 32, _ => interleave32_rot_32 a
+  | 33, _ => interleave32_rot_33 a
+  | 34, _ => interleave32_rot_34 a
+  | 35, _ => interleave32_rot_35 a
+  | 36, _ => interleave32_rot_36 a
+  | 37, _ => interleave32_rot_37 a
+  | 38, _ => interleave32_rot_38 a
+  | 39, _ => interleave32_rot_39 a
+  | 40, _ => interleave32_rot_40 a
+  | 41, _ => interleave32_rot_41 a
+  | 42, _ => interleave32_rot_42 a
+  | 43, _ => interleave32_rot_43 a
+  | 44, _ => interleave32_rot_44 a
+  | 45, _ => interleave32_rot_45 a
+  | 46, _ => interleave32_rot_46 a
+  | 47, _ => interleave32_rot_47 a
+  | 48, _ => interleave32_rot_48 a
+  | 49, _ => interleave32_rot_49 a
+  | 50, _ => interleave32_rot_50 a
+  | 51, _ => interleave32_rot_51 a
+  | 52, _ => interleave32_rot_52 a
+  | 53, _ => interleave32_rot_53 a
+  | 54, _ => interleave32_rot_54 a
+  | 55, _ => interleave32_rot_55 a
+  | 56, _ => interleave32_rot_56 a
+  | 57, _ => interleave32_rot_57 a
+  | 58, _ => interleave32_rot_58 a
+  | 59, _ => interleave32_rot_59 a
+  | 60, _ => interleave32_rot_60 a
+  | 61, _ => interleave32_rot_61 a
+  | 62, _ => interleave32_rot_62 a
+  | 63, _ => interleave32_rot_63 a
   | n + 64, h => by omega
 
 end Usual.C05.Keccak
